@@ -159,7 +159,7 @@ def gen(rng, shard, nshards, curves, n_cases, directed):
         if directed:
             cases.extend(gen_directed(g, shard, nshards, rng))
         cases.extend(gen_curve(rng, g, max(1, int(n_cases / COST[c]))))
-    return cases
+    return vary_forms(cases, rng)
 
 
 def main(argv):
